@@ -365,6 +365,54 @@ macro_rules! once {
 }
 
 harness! {
+    /// kind=complete tier=quick bound="loop-free; try_rebind! / rebind_if_ok! of a single place and of a pair, used INSIDE a nested block / if arm / loop body, with the places read after that scope has ended: the macros assign to the existing places (a `let` shadow would be lost at the end of the scope)"
+    #[kani::unwind(4)]
+    fn c19_rebind_assigns_existing_place_across_scopes(s) {
+        let r = any_res(s);
+        let init = s.u8();
+        let flag = s.bool();
+        fn single_in_block(r: R, init: u8) -> Result<u8, E> {
+            let mut x = init;
+            {
+                konst::try_rebind! {x = r}
+            }
+            Ok(x)
+        }
+        chk!(s, single_in_block(r, init) == (match r { Ok(v) => Ok(v), Err(e) => Err(e) }), "C19.try_rebind.single_place_in_nested_block_assigns_outer_place");
+        fn single_in_if(r: R, init: u8, flag: bool) -> Result<u8, E> {
+            let mut x = init;
+            if flag {
+                konst::try_rebind! {x = r}
+            }
+            Ok(x)
+        }
+        chk!(s, single_in_if(r, init, flag) == (if flag { r } else { Ok(init) }), "C19.try_rebind.single_place_in_if_arm_assigns_outer_place");
+        fn single_in_loop(r: R, init: u8) -> Result<u8, E> {
+            let mut x = init;
+            let mut i = 0;
+            while i < 2 {
+                konst::try_rebind! {x = r}
+                i += 1;
+            }
+            Ok(x)
+        }
+        chk!(s, single_in_loop(r, init) == r, "C19.try_rebind.single_place_in_loop_body_assigns_outer_place");
+        let mut y = init;
+        {
+            konst::rebind_if_ok! {y = r => }
+        }
+        chk!(s, y == (match r { Ok(v) => v, Err(_) => init }), "C19.rebind_if_ok.single_place_in_nested_block_assigns_outer_place");
+        let r2: Result<(u8, u8), E> = match r { Ok(v) => Ok((v, v ^ 0x55)), Err(e) => Err(e) };
+        let (mut p, mut q) = (init, init);
+        if flag {
+            konst::rebind_if_ok! {(p, q) = r2 => }
+        }
+        chk!(s, (p, q) == (match (flag, r2) { (true, Ok(t)) => t, _ => (init, init) }), "C19.rebind_if_ok.pair_in_if_arm_assigns_outer_places");
+        cov!(s, r.is_ok() && flag && init != 0, "C19.cover.rebind_across_scopes_ok");
+    }
+}
+
+harness! {
     /// kind=complete tier=quick bound="loop-free; rebind_if_ok! / try_rebind! with components whose ORDER of assignment is observable: (i, arr[i]) with a symbolic index and value, (x, x), (let a, let a) shadowing, and the arity-3 chain (i, arr[i], i); compared with the assignments written out left to right"
     fn c19_rebind_assignment_order(s) {
         let a = (s.u8() % 3) as usize;
